@@ -420,7 +420,16 @@ impl Check for C11 {
         if !missing.is_empty() {
             st.fails.push(("leaked-item".into(), format!("{} of {} injected items were never dropped after every handle was gone (first ids {:?})", missing.len(), st.created.len(), &missing[..missing.len().min(5)])));
         }
-        let band = BAND_LIVE.load(Ordering::SeqCst);
+        // the last owner may be a pool thread that is still inside the vector's destructor (the
+        // payload of an entry is dropped before its columns): wait for it like for the ledger
+        let mut band = BAND_LIVE.load(Ordering::SeqCst);
+        for _ in 0..500 {
+            if band == band0 || st.any_panic {
+                break;
+            }
+            std::thread::sleep(Duration::from_millis(2));
+            band = BAND_LIVE.load(Ordering::SeqCst);
+        }
         if !st.any_panic && band != band0 {
             st.fails.push(("leaked-columns".into(), format!("{} column heap blocks are still alive after every handle was gone", band - band0)));
         }
